@@ -85,7 +85,15 @@ type absCtx struct {
 	ptrSlices map[string]bool             // parameters of type *[]byte, threaded as the slice they point to
 	noJoin    map[ast.Stmt]bool           // switch statements being translated as a join (recursion guard)
 	foreign   []absForeign                // state objects of other translated types reached through a field (self.p): threaded
+	views     map[string]absView          // locals bound to element idx of a table: s := (*T)(rt.IndexPtr(tbl, size, idx))
+	loops     []absLoop                   // enclosing counted loops being translated (innermost last)
+	nloop     int
 }
+
+// an element of an abstract table: its atoms are function-valued atoms (index -> value) of the table object
+type absView struct{ table, idxVar string }
+
+type absLoop struct{ cont, brk string }
 
 // a protocol object reached through a field of an abstract object (self.p) whose type has declared State in its own module:
 // its state fields are parameters and trailing results of the definition, and calls of its translated methods are real calls
@@ -190,6 +198,9 @@ func (tr *translator) absPath(e ast.Expr) (base string, path string, ok bool) {
 		if _, is := a.bases[e.Name]; is {
 			return e.Name, "", true
 		}
+		if _, is := a.views[e.Name]; is {
+			return e.Name, "", true
+		}
 	case *ast.SelectorExpr:
 		b, p, ok := tr.absPath(e.X)
 		if !ok {
@@ -233,12 +244,45 @@ func (tr *translator) atomRef(base, path, ty string) string {
 	if v, ok := a.outVar(base, path); ok {
 		return v
 	}
+	if v, isView := a.views[base]; isView {
+		tb := a.bases[v.table]
+		fty := "Z -> " + ty
+		if old, ok := tb.atoms[path]; ok && old != fty {
+			fail(nil, "atom %s.%s used at two types", v.table, path)
+		}
+		tb.atoms[path] = fty
+		return "(" + a.def + "_" + v.table + "_" + path + " " + lv(v.table) + " " + v.idxVar + ")"
+	}
 	b := a.bases[base]
 	if old, ok := b.atoms[path]; ok && old != ty {
 		fail(nil, "atom %s.%s used at two types", base, path)
 	}
 	b.atoms[path] = ty
 	return "(" + a.def + "_" + base + "_" + path + " " + lv(base) + ")"
+}
+
+// viewPattern:  (*T)(rt.IndexPtr(tbl, size, idx))  with tbl an abstract object
+func (tr *translator) viewPattern(e ast.Expr) (table string, idx ast.Expr, ok bool) {
+	ce, isc := e.(*ast.CallExpr)
+	if !isc || len(ce.Args) != 1 {
+		return "", nil, false
+	}
+	if tv, has := tr.pi.info.Types[ce.Fun]; !has || !tv.IsType() {
+		return "", nil, false
+	}
+	in, isc := ce.Args[0].(*ast.CallExpr)
+	if !isc || len(in.Args) != 3 {
+		return "", nil, false
+	}
+	se, iss := in.Fun.(*ast.SelectorExpr)
+	if !iss || se.Sel.Name != "IndexPtr" {
+		return "", nil, false
+	}
+	id, isid := in.Args[0].(*ast.Ident)
+	if !isid {
+		return "", nil, false
+	}
+	return id.Name, in.Args[2], true
 }
 
 // expression hook (called by expr after the constant check)
@@ -293,6 +337,13 @@ func (tr *translator) absExpr(e ast.Expr) (string, bool) {
 func (tr *translator) isOpaqueCall(ce *ast.CallExpr) bool {
 	if tv, ok := tr.pi.info.Types[ce.Fun]; ok && tv.IsType() {
 		return false
+	}
+	if se, ok := ce.Fun.(*ast.SelectorExpr); ok && se.Sel.Name == "IndexPtr" && len(ce.Args) == 3 {
+		if id, isid := ce.Args[0].(*ast.Ident); isid && tr.abs != nil {
+			if _, isb := tr.abs.bases[id.Name]; isb {
+				return false // element of an abstract table: a read (function-valued atom), not an effect
+			}
+		}
 	}
 	switch f := ce.Fun.(type) {
 	case *ast.Ident:
@@ -654,7 +705,20 @@ func (tr *translator) absStmt(list []ast.Stmt, k func() string) (string, bool) {
 			}
 			return "(match " + v + " with Some r_ => Some " + tr.absTuple([]string{"r_"}) + " | None => None end)", true
 		}
+	case *ast.ForStmt:
+		if out, ok := tr.absFor(s, rest); ok {
+			return out, true
+		}
 	case *ast.BranchStmt:
+		if len(a.loops) > 0 && s.Label == nil {
+			l := a.loops[len(a.loops)-1]
+			switch s.Tok {
+			case token.BREAK:
+				return l.brk, true
+			case token.CONTINUE:
+				return l.cont, true
+			}
+		}
 		if a.block && s.Label == nil {
 			switch s.Tok {
 			case token.CONTINUE:
@@ -694,6 +758,14 @@ func (tr *translator) absStmt(list []ast.Stmt, k func() string) (string, bool) {
 			}
 		}
 	case *ast.AssignStmt:
+		if len(s.Lhs) == 1 && len(s.Rhs) == 1 && s.Tok == token.DEFINE {
+			if id, isid := s.Lhs[0].(*ast.Ident); isid {
+				if v, isView := a.views[id.Name]; isView {
+					_, idx, _ := tr.viewPattern(s.Rhs[0])
+					return "let " + v.idxVar + " := " + tr.expr(idx) + " in\n" + rest(), true
+				}
+			}
+		}
 		if len(s.Rhs) == 1 && (s.Tok == token.DEFINE || s.Tok == token.ASSIGN) {
 			if ce, isc := s.Rhs[0].(*ast.CallExpr); isc {
 				if app, n, f, ok := tr.foreignCall(ce); ok {
@@ -919,6 +991,7 @@ func (tr *translator) absDefinition(defName, srcName string, fd *ast.FuncDecl, b
 
 	// locals bound to the opaque result of an untranslated call: oracle bases
 	var oracles []absVar
+	var viewDefs []*ast.AssignStmt
 	ast.Inspect(body, func(x ast.Node) bool {
 		as, ok := x.(*ast.AssignStmt)
 		if !ok || as.Tok != token.DEFINE || len(as.Lhs) != 1 || len(as.Rhs) != 1 {
@@ -929,6 +1002,10 @@ func (tr *translator) absDefinition(defName, srcName string, fd *ast.FuncDecl, b
 			return true
 		}
 		if _, ok := as.Rhs[0].(*ast.CallExpr); !ok {
+			return true
+		}
+		if _, _, isView := tr.viewPattern(as.Rhs[0]); isView {
+			viewDefs = append(viewDefs, as)
 			return true
 		}
 		d := tr.pi.info.Defs[id]
@@ -966,6 +1043,15 @@ func (tr *translator) absDefinition(defName, srcName string, fd *ast.FuncDecl, b
 		a.bases[v.name] = &absBase{name: v.name, atoms: map[string]string{}}
 		a.order = append(a.order, v.name)
 		slots = append(slots, pslot{v.name, "", true})
+	}
+	a.views = map[string]absView{}
+	for _, as := range viewDefs {
+		tbl, _, _ := tr.viewPattern(as.Rhs[0])
+		if _, isb := a.bases[tbl]; !isb {
+			fail(as, "indexed view of %s which is not an abstract object", tbl)
+		}
+		n := as.Lhs[0].(*ast.Ident).Name
+		a.views[n] = absView{table: tbl, idxVar: lv(n + "_idx_")}
 	}
 	// oracle locals must really be bound by an opaque call (checked now that the bases exist)
 	for _, o := range oracles {
@@ -1715,4 +1801,90 @@ func (tr *translator) absCond(b Block, fd *ast.FuncDecl) (def string, err error)
 	pos := fset.Position(cond.Pos())
 	return fmt.Sprintf("(* %s:%d  condition of %s: if %s *)\nDefinition %s %s : bool :=\n%s.\n", pos.Filename, pos.Line, b.Func, cm(b.Anchor), b.Name,
 		strings.Join(params, " "), body), nil
+}
+
+// ---------------------------------------------------------------- counted loops with break / continue
+
+// absFor:  for i := a; i < b; i++ { body }  with break / continue (no return inside): a local structural recursion whose fuel is the
+// exact iteration bound b - a (b must not be assigned in the body)
+func (tr *translator) absFor(s *ast.ForStmt, rest func() string) (string, bool) {
+	a := tr.abs
+	init, ok := s.Init.(*ast.AssignStmt)
+	if !ok || init.Tok != token.DEFINE || len(init.Lhs) != 1 {
+		return "", false
+	}
+	ivId, ok := init.Lhs[0].(*ast.Ident)
+	if !ok {
+		return "", false
+	}
+	cond, ok := s.Cond.(*ast.BinaryExpr)
+	if !ok || cond.Op != token.LSS {
+		return "", false
+	}
+	if id, ok := cond.X.(*ast.Ident); !ok || id.Name != ivId.Name {
+		return "", false
+	}
+	post, ok := s.Post.(*ast.IncDecStmt)
+	if !ok || post.Tok != token.INC {
+		return "", false
+	}
+	hasBranch, hasReturn := false, false
+	ast.Inspect(s.Body, func(n ast.Node) bool {
+		switch n.(type) {
+		case *ast.BranchStmt:
+			hasBranch = true
+		case *ast.ReturnStmt:
+			hasReturn = true
+		case *ast.ForStmt:
+			if n != ast.Node(s) {
+				hasReturn = true // nested loops: not handled here
+			}
+		}
+		return true
+	})
+	if hasReturn {
+		fail(s, "return or nested loop inside a counted loop")
+	}
+	if !hasBranch {
+		// plain accumulating loops keep the fold_left translation
+		return "", false
+	}
+	vars, _ := tr.assignedIn(s.Body, s.Pos())
+	iv := lv(ivId.Name)
+	for _, v := range vars {
+		if v == iv {
+			fail(s, "index variable assigned in the loop body")
+		}
+	}
+	// the bound must be loop-invariant
+	ast.Inspect(cond.Y, func(n ast.Node) bool {
+		if id, ok := n.(*ast.Ident); ok {
+			for _, v := range vars {
+				if lv(id.Name) == v {
+					fail(s, "loop bound %s is assigned in the body", id.Name)
+				}
+			}
+		}
+		return true
+	})
+	if len(vars) == 0 {
+		return rest(), true
+	}
+	a.nloop++
+	name := fmt.Sprintf("loop%d_", a.nloop)
+	fuel := fmt.Sprintf("fuel%d_", a.nloop)
+	pat, tup := tuplePat(vars)
+	lo, hi := tr.expr(init.Rhs[0]), tr.expr(cond.Y)
+	args := strings.Join(vars, " ")
+	a.loops = append(a.loops, absLoop{cont: "(" + name + " " + fuel + " (" + iv + " + 1) " + args + ")", brk: tup})
+	body := tr.stmts(s.Body.List, func() string { return "(" + name + " " + fuel + " (" + iv + " + 1) " + args + ")" })
+	a.loops = a.loops[:len(a.loops)-1]
+	var binders []string
+	for _, v := range vars {
+		binders = append(binders, "("+v+" : _)")
+	}
+	out := "let " + pat + " := (fix " + name + " (" + fuel + " : nat) (" + iv + " : Z) " + strings.Join(binders, " ") + " {struct " + fuel + "} :=\n" +
+		"match " + fuel + " with O => " + tup + " | S " + fuel + " =>\n" +
+		"if (" + iv + " <? " + hi + ") then (\n" + body + ")\nelse (\n" + tup + ") end) (Z.to_nat (" + hi + " - " + lo + ")) " + lo + " " + args + " in\n"
+	return out + rest(), true
 }
